@@ -287,7 +287,10 @@ class Cluster:
                 else:
                     # self.clusters[c]['resources']['available'].remove(machine)
                     # self.clusters[c]['resources']['occupied'].append(machine)
-                    self._set_machine_occupied(machine, observation)
+                    if not self._set_machine_occupied(machine, observation):
+                        raise RuntimeError(
+                            "Machine is neither available nor provisioned "
+                            "for this observation")
                     self._clusters[c]['tasks']['running'].append(task)
                     self._clusters[c]['usage_data']['available'] -= 1
                     self._clusters[c]['usage_data']['running_tasks'] += 1
